@@ -231,6 +231,65 @@ theorem routing_adapters (o : Opts) (ads1 ads2 : List Matchable) (f1 f2 : Bool) 
   unfold adapterStageP cutterOf
   cases ads1 <;> cases ads2 <;> simp_all
 
+/-! ## Paired-end renaming (`--rename` acts on both reads) -/
+
+/-- **`PairedEndRenamer`, what a successful call does**: the ids of the two incoming names match; each read is renamed with the same
+    template, R1 with its own fields and `{rn}` = 1, R2 with its own fields and `{rn}` = 2, `{r1.x}`/`{r2.x}` taking R1's/R2's field in
+    both names; the ids of the new names match again; bases, qualities, the `ModificationInfo`s are untouched and nothing is counted. -/
+theorem paired_rename_spec (a1 a2 : List Matchable) (t1 t2 : List Tok) (r1 r2 o1 o2 : Read) (i1 i2 j1 j2 : Info) (evs : List Event)
+    (h : applyP a1 a2 (.pairedRename t1 t2) (r1, r2) (i1, i2) = .ok ((o1, o2), (j1, j2), evs)) :
+    recordNamesMatch r1.name r2.name = true ∧
+    ∃ n1 n2, t1.mapM (renderPairedTok 1 (renameFields (namesOf a1) r1 i1) (renameFields (namesOf a1) r1 i1) (renameFields (namesOf a2) r2 i2)) = .ok n1 ∧
+             t2.mapM (renderPairedTok 2 (renameFields (namesOf a2) r2 i2) (renameFields (namesOf a1) r1 i1) (renameFields (namesOf a2) r2 i2)) = .ok n2 ∧
+             recordNamesMatch n1.flatten n2.flatten = true ∧
+             o1 = { r1 with name := n1.flatten } ∧ o2 = { r2 with name := n2.flatten } ∧ j1 = i1 ∧ j2 = i2 ∧ evs = [] := by
+  simp only [applyP] at h
+  split at h
+  · simp at h
+  · rename_i hm
+    split at h
+    · rename_i n1 n2 h1 h2
+      split at h
+      · simp at h
+      · rename_i hm2
+        simp only [Except.ok.injEq, Prod.mk.injEq] at h
+        obtain ⟨⟨rfl, rfl⟩, ⟨rfl, rfl⟩, rfl⟩ := h
+        refine ⟨by simpa using hm, n1, n2, h1, h2, by simpa using hm2, rfl, rfl, rfl, rfl, rfl⟩
+    · simp at h
+    · simp at h
+
+/-- what the placeholders of a paired template stand for -/
+theorem paired_rename_placeholders (rn : Nat) (own d1 d2 : RenameFields) :
+    renderPairedTok rn own d1 d2 (.var "id") = .ok own.id ∧
+    renderPairedTok rn own d1 d2 (.var "rn") = .ok (natToBytes rn) ∧
+    renderPairedTok rn own d1 d2 (.var "comment") = .ok own.comment ∧
+    renderPairedTok rn own d1 d2 (.var "adapter_name") = .ok own.adapterName ∧
+    renderPairedTok rn own d1 d2 (.var "r1.comment") = .ok d1.comment ∧
+    renderPairedTok rn own d1 d2 (.var "r2.comment") = .ok d2.comment ∧
+    renderPairedTok rn own d1 d2 (.var "r1.adapter_name") = .ok d1.adapterName ∧
+    renderPairedTok rn own d1 d2 (.var "r2.adapter_name") = .ok d2.adapterName ∧
+    renderPairedTok rn own d1 d2 (.var "r1.cut_prefix") = .ok d1.cutPrefix ∧
+    renderPairedTok rn own d1 d2 (.var "r2.match_sequence") = .ok d2.matchSequence :=
+  ⟨rfl, rfl, rfl, rfl, rfl, rfl, rfl, rfl, rfl, rfl⟩
+
+/-- every placeholder that `PairedEndRenamer` accepts is rendered (no `KeyError` at run time), and `{rc}` / `{r1.id}` are not accepted -/
+theorem paired_rename_variables_total :
+    (pairedRenamerVariables.all fun v =>
+      (renderPairedTok 1 ⟨[], [], [], [], [], [], []⟩ ⟨[], [], [], [], [], [], []⟩ ⟨[], [], [], [], [], [], []⟩ (.var v)).toOption.isSome) = true ∧
+    renameVarsOK true [.var "rc"] = false ∧ renameVarsOK true [.var "r1.id"] = false ∧ renameVarsOK false [.var "rn"] = false ∧
+    renameVarsOK true [.var "id", .lit [32], .var "r2.adapter_name", .var "rn"] = true := by
+  decide
+
+/-- `record_names_match` ignores the comment and a final mate digit 1/2/3 on both ids; it is reflexive -/
+theorem recordNamesMatch_refl (n : Bytes) : recordNamesMatch n n = true := by
+  unfold recordNamesMatch
+  simp only [bne_self_eq_false, Bool.false_eq_true, ↓reduceIte]
+  cases (recordId n).getLast? <;> simp
+
+/-- `r1/1 x` ~ `r1/2 y`;  `r14` ≁ `r11`;  `ab` ≁ `ab1` -/
+example : recordNamesMatch [114, 49, 47, 49, 32, 120] [114, 49, 47, 50, 32, 121] = true ∧ recordNamesMatch [114, 49, 52] [114, 49, 49] = false ∧
+    recordNamesMatch [97, 98] [97, 98, 49] = false := by decide
+
 /-- a modifier routed to R1 only leaves R2 and its info untouched … -/
 theorem onR1_leaves_R2 (a1 a2 : List Matchable) (m : SMod) (r1 r2 r1' r2' : Read) (i1 i2 i1' i2' : Info) (evs : List Event)
     (h : applyP a1 a2 (onR1 m) (r1, r2) (i1, i2) = .ok ((r1', r2'), (i1', i2'), evs)) :
